@@ -589,6 +589,16 @@ static void c02_expand(Ctx &c, const uint8_t *p, size_t len, size_t off)
   }
   if (!ledger_clean(&what)) c.viol("C02:leak:ares_expand_string", what);
   c.rep.outcome("ares_expand_string:" + status_name(st));
+  // the same call in its documented "skip" form (no output string wanted): same status, same length, nothing kept
+  {
+    long el2 = -7;
+    int  st2 = ares_expand_string(p + off, p, (int)len, nullptr, &el2);
+    c.rep.executions++;
+    if (st2 != st) c.viol("C02:result:ares_expand_string:skip-form-status", "status " + status_name(st2) + " without an output string, " + status_name(st) + " with one");
+    else if (st == ARES_SUCCESS && el2 != enclen) c.viol("C02:result:ares_expand_string:skip-form-enclen", "enclen " + std::to_string(el2) + " without an output string, " + std::to_string(enclen) + " with one");
+    if (!ledger_clean(&what)) c.viol("C02:leak:ares_expand_string:skip-form", what);
+    if (st2 == ARES_SUCCESS) c.rep.witness("expand_string_skip_form_ok");
+  }
 }
 
 void run_c02(Ctx &c, const CaseInfo &ci)
